@@ -1,5 +1,7 @@
 import TunnoxModel.Proofs.C13
 import TunnoxModel.Proofs.C13Lin
+import TunnoxModel.Proofs.C13Alias
+import TunnoxModel.Spec.C13Alias
 /-!
 # C13 — storage backends implement one TTL key-value semantics
 
@@ -237,6 +239,58 @@ theorem C13_linearizable_current (now : Nat) (sched : List Nat) (progs : List (L
     (hc : completes sched progs = true) :
     holdsConc now progs (observeThreads render progs.length (runSched now sched FMap.empty progs)) = true :=
   C13_linearizable atomic_calls now sched progs hc
+
+/-! ## Answers are values (reference semantics of lists) -/
+
+/-- **An answer never changes after it was returned; a call on key `a` never changes key `b`.**
+In the reference-semantics model of the list code (slices into shared backing arrays; `GetList`
+hands out the stored slice; `AppendToList` writes into spare capacity; capacities chosen by the
+runtime are arbitrary parameters of the calls), for EVERY history of `SetList`, `SetList` of a held
+answer, `GetList` kept by the caller, looking at a kept answer again, `AppendToList`,
+`RemoveFromList`, `Delete`: all answers equal those of the map whose holders hold lists by value. -/
+theorem C13_alias_refines (ops : List Alias.LOp) :
+    Alias.run .repaired ops Alias.St.empty = Alias.specRun ops FMap.empty :=
+  Alias.run_sim ops _ _ Alias.sim_empty Alias.inv_empty
+
+/-- The same as the predicate the driver applies to the real backend's `alias` observations. -/
+theorem C13_answers_never_change (ops : List Alias.LOp) :
+    Alias.holdsAlias ops ((Alias.run .repaired ops Alias.St.empty).map Alias.renderL) = true := by
+  unfold Alias.holdsAlias
+  rw [C13_alias_refines]
+  exact beq_self_eq_true _
+
+/-- Seeded regression "RemoveFromList compacts in place": an answer of `GetList` held by the caller
+turns from `[x,y,z]` into `[y,z,nil]` when `x` is removed afterwards. -/
+theorem removeInPlace_witness :
+    (Alias.run .removeInPlace
+      [.setList "a" [.str "x", .str "y", .str "z"] 0, .hold 0 "a", .remove "a" (.str "x"), .peek 0]
+      Alias.St.empty).map Alias.renderL = ["ok", "L[s78,s79,s7a]", "ok", "L[s79,s7a,nil]"] ∧
+    Alias.holdsAlias
+      [.setList "a" [.str "x", .str "y", .str "z"] 0, .hold 0 "a", .remove "a" (.str "x"), .peek 0]
+      ["ok", "L[s78,s79,s7a]", "ok", "L[s79,s7a,nil]"] = false := by
+  decide +kernel
+
+/-- Repaired defect: `SetList` as found kept the caller's slice; two keys stored from one slice with
+spare capacity overwrote each other's appended member (`a` ends in `q` instead of `p`). -/
+theorem setListByRef_witness :
+    (Alias.run .setListByRef
+      [.setList "a" [.str "x"] 2, .hold 0 "a", .setListFrom "b" 0, .append "a" (.str "p") 0,
+       .append "b" (.str "q") 0, .getList "a"] Alias.St.empty).map Alias.renderL
+      = ["ok", "L[s78]", "ok", "ok", "ok", "L[s78,s71]"] ∧
+    Alias.holdsAlias
+      [.setList "a" [.str "x"] 2, .hold 0 "a", .setListFrom "b" 0, .append "a" (.str "p") 0,
+       .append "b" (.str "q") 0, .getList "a"] ["ok", "L[s78]", "ok", "ok", "ok", "L[s78,s71]"] = false := by
+  decide +kernel
+
+/-- Non-vacuity: on the repaired code the same histories answer by value, also when an append lands
+in spare capacity shared with a held answer. -/
+example :
+    (Alias.run .repaired
+      [.append "a" (.str "x") 3, .append "a" (.str "y") 3, .hold 0 "a", .setListFrom "b" 0,
+       .append "a" (.str "p") 0, .append "b" (.str "q") 0, .remove "a" (.str "x"), .peek 0, .getList "a", .getList "b"]
+      Alias.St.empty).map Alias.renderL
+      = ["ok", "ok", "L[s78,s79]", "ok", "ok", "ok", "ok", "L[s78,s79]", "L[s79,s70]", "L[s78,s79,s71]"] := by
+  decide +kernel
 
 /-! ## Findings -/
 
